@@ -8,6 +8,7 @@ func init() {
 	vxRegister("H03aQ", H03aQ)
 	vxRegister("H03aT", H03aT)
 	vxRegister("H02aQ", H02aQ)
+	vxRegister("H03f", H03f)
 	vxRegister("H02aT", H02aT)
 }
 
@@ -50,6 +51,24 @@ func h03a(edits int, ts []float64) {
 	in := vxText(all, brk)
 	r := c.Match(in)
 	vxWellFormed(c, t, in, r, docs)
+	if len(r.Matches) > 0 {
+		vxCover("has-match")
+	}
+	vxCover("end")
+}
+
+// H03f: nothing below the threshold is reported - the threshold is a symbolic float64 in (0,1]
+// and the input is a noisy copy (one substituted word) so that the confidence is strictly below 1.
+func H03f() {
+	t := vxFloat64(0.0001, 1.0)
+	world := []int{1}
+	c := vxBuildWorld(t, world...)
+	K := append([]string(nil), vxFamily[world[0]]...)
+	K[3] = ""
+	all, brk := vxEmbed(K, 1, 1, 3)
+	in := vxText(all, brk)
+	r := c.Match(in)
+	vxWellFormed(c, t, in, r, world)
 	if len(r.Matches) > 0 {
 		vxCover("has-match")
 	}
